@@ -39,7 +39,7 @@ CLAIMS.update({
 
 CLAIMS.update({
     "C13": ("regex-tree queries (cased letters vs IGNORECASE, end anchors), case lattice over string expressions (def-use, field and container stores, call-site substitution)", "Decides: every pattern that spells out letters and is applied to Fortran text carries IGNORECASE; no entity name is compared as written, and where one side of a comparison or look-up is case-normalised the other is normalised alike (violations only on provably raw operands; underivable cases are reported as undecided); one LF/CRLF/CR splitter for both ingestion paths; end-anchored statement patterns tolerate trailing blanks or their argument is right-stripped. Not decided: continuation/semicolon handling, comment insertion, line shifts (behaviour of get_code_line/parse on text)."),
-    "C14": ("regex-tree queries on the fixed-form lexical patterns + dominating-facts check of every free/fixed pattern use", "Decides: FIXED_COMMENT/FIXED_DOC start with exactly {! c C d D *} and are applied at column 1, FIXED_CONT is five blanks plus a non-blank, LINE_LABEL is digits plus blank; every use of a FREE_* pattern is in the not-fixed arm of a test of the form flag and the function has a fixed-form arm; every whole-buffer writer re-detects the form and the parser re-derives its comment patterns; the stripped label reaches the labelled-DO closer. Not decided: equality of the two renderings' indexes, the content heuristic detect_fixed_format."),
+    "C14": ("regex-tree queries on the fixed-form lexical patterns + dominating-facts check of every free/fixed pattern use", "Decides: FIXED_COMMENT/FIXED_DOC start with exactly {! c C d D *} and are applied at column 1, FIXED_CONT is five blanks plus a non-blank, LINE_LABEL is digits plus blank; every use of a FREE_* pattern is in the not-fixed arm of a test of the form flag and the function has a fixed-form arm; every whole-buffer writer re-detects the form and the parser re-derives its comment patterns; the stripped label reaches the labelled-DO closer, which closes every DO sharing the label; the free-form evidence of detect_fixed_format is examined independently of the comment-flag test; both fixed-form arms of the statement assembler store continuation lines with their label/marker columns blanked. Not decided: equality of the two renderings' indexes, the remaining content heuristics of detect_fixed_format."),
 })
 
 CLAIMS.update({
